@@ -29,7 +29,7 @@ class C08(Prop):
         R = Rng(seed, "C08")
         cfg = {"records_max": 6, "len_max": 3000, "isn_wrap": False, "seg_pct": 80,
                "net": {"delay": 25, "lost_before": 40, "dup": 30, "dup_rto": 40, "dup_late": 40, "_D": 3}, "net_pct": 60,
-               "quic_pct": 35, "quic": {"small": True, "net": {"delay": 200, "dup": 80, "lost": 30, "_D": 3}}}
+               "quic_pct": 35, "quic": {"small": True, "migrate_pct": 20, "net": {"delay": 200, "dup": 80, "lost": 30, "_D": 3}}}
         spec = gen.gen_mixed_world(R.fork("world"), cfg, nconn=R.weighted([(1, 50), (2, 35), (3, 15)]))
         spec["prop"] = "C08"
         spec["tier"] = tier
